@@ -676,6 +676,31 @@ def _eng_cases(rng, tier):
             qs.append(("", agg))
         out.append({"kind": "engine", "line": "", "cfg": cfg, "script": [list(x) for x in script], "evs": evs, "qs": qs,
                     "show": f"engine slow-shard {cfg}: {len(evs)} events, " + "; ".join(f"QUERY t {a} (scans held > 5 s)" for _, a in qs)})
+    # ... and ONE slow shard, stalled in the middle of its flow (not in its set-up): the shard of a busy context has a
+    # rotated memtable whose flush is held at its first step; the aggregate query's memory source of that shard is held
+    # while it has the passive buffer locked, for longer than 5 s, while the other shards answer at once
+    for i in range(1 if tier == "quick" else 6):
+        cfg = dict(rng.choice([c for c in _E.CFGS if c["shards"] > 1])); cfg["segments_per_merge"] = 2
+        cap = cfg["fill_factor"] * cfg["event_per_zone"]
+        script = [("cmd", f"DEFINE t FIELDS {_E.FIELDS}")]
+        evs = []
+        for cx in range(rng.range(3, 6)):
+            for j in range(rng.range(1, max(1, cap - 1))):
+                k = rng.below(10)
+                script.append(("cmd", f'STORE t FOR quiet{cx} PAYLOAD {{"k": {k}, "g": "g{rng.below(3)}"}}')); evs.append({"k": k})
+        if rng.chance(1, 2):
+            script += [("cmd", "FLUSH"), ("quiesce",)]
+        script.append(("raw", "!park fw_begin"))
+        for j in range(cap):
+            k = rng.below(10)
+            script.append(("cmd", f'STORE t FOR busy PAYLOAD {{"k": {k}, "g": "g{rng.below(3)}"}}')); evs.append({"k": k})
+        script.append(("raw", "!wait_parked fw_begin 3000"))
+        agg = rng.choice(["COUNT BY g", "COUNT", "TOTAL k", "COUNT, TOTAL k BY g"])
+        script.append(("cmd", "QUERY t"))
+        script.append(("slowread", f"QUERY t {agg}", "rd_passive_locked", rng.choice([5600, 6500]), "fw_begin"))
+        qs = [("", agg)]
+        out.append({"kind": "engine", "line": "", "cfg": cfg, "script": [list(x) for x in script], "evs": evs, "qs": qs,
+                    "show": f"engine slow-shard-mid-flow {cfg}: {len(evs)} events, QUERY t {agg} (one shard's memory source held > 5 s)"})
     # scale: more rows in ONE flow than a source batch holds (32 768), so that per-batch partial states are combined
     # inside a flow; a group that occurs in the first batch only, one that first appears late, null metric cells
     for i in range(1 if tier == "quick" else 4):
